@@ -115,7 +115,7 @@ def main():
     max_k = 6
     small_ops = ["-", "+", "=="]
     C.bounds = {"chain_operands": f"2..{max_k}", "operators": f"all {len(ops)} operator strings symbolic for chains up to {full_k} operands; "
-                f"{small_ops} for longer chains", "operands": f"one atom token each, or (chains up to {full_k} operands) a parenthesised atom"}
+                f"{small_ops} for longer chains", "operands": "one atom token each, or (chains up to 3 operands) a parenthesised atom"}
     C.assumptions += [
         "parse_expression_no_trailing on an operand token consumes exactly that token and returns an expression whose expr_ is not "
         "BinaryOperator (variables, literals and Parentheses(..)); checked concretely in translator validation",
@@ -150,7 +150,7 @@ def main():
         off = 0
         # operand shapes: an atom, or (for the chains checked with all operators) a parenthesised atom - the loop may
         # look at the token that starts an operand
-        shapes = [ctx.choose([True, True]) if k <= full_k else 0 for _ in range(k)]
+        shapes = [ctx.choose([True, True]) if k <= min(full_k, 3) else 0 for _ in range(k)]
         for i in range(k):
             if shapes[i]:
                 toks.append(mk_token(Str("("), off, 1))
